@@ -9,19 +9,26 @@
 (* shows it is necessary:                                                   *)
 (*   CopyOnReturn : tokenize hands out a copy of the cached list            *)
 (*   ResetCursor  : every parse starts from a fresh cursor                  *)
+(* The parser's tokenizer is public and reconfigurable (exclude_padding,     *)
+(* the function registry): `mode` is the current configuration. The caches   *)
+(* are keyed by text only, so entries made under another configuration are   *)
+(* stale until clear_cache() - which must drop BOTH caches (ClearDropsTokens)*)
+(* for the new configuration to take effect.                                 *)
 (***************************************************************************)
 EXTENDS Integers, Sequences, FiniteSets, TLC
 CONSTANTS Texts,          \* abstract input strings
           TokLen,         \* [Texts -> Nat]: number of tokens (0 = tokenizing raises ValueError)
           ParseOK,        \* [Texts -> BOOLEAN]: does the fresh parser accept
-          CopyOnReturn, ResetCursor, MaxLists, MaxSteps
+          CopyOnReturn, ResetCursor, MaxLists, MaxSteps,
+          Modes,          \* tokenizer configurations; TokLen / ParseOK are per configuration: [Modes -> [Texts -> ...]]
+          ClearDropsTokens
 
-FreshTokens(t) == [j \in 1..TokLen[t] |-> <<t, j>>]
-Tokenizable(t) == TokLen[t] > 0
-\* what a fresh parser answers
-FreshTok(t)   == IF Tokenizable(t) THEN <<"tokens", FreshTokens(t)>> ELSE <<"raise", "ValueError">>
-FreshParse(t) == IF ~Tokenizable(t) THEN <<"raise", "ValueError">>
-                 ELSE IF ParseOK[t] THEN <<"tree", t>> ELSE <<"raise", "ParserException">>
+FreshTokensM(t, m) == [j \in 1..TokLen[m][t] |-> <<t, m, j>>]
+TokenizableM(t, m) == TokLen[m][t] > 0
+\* what a fresh parser configured as m answers
+FreshTokM(t, m)   == IF TokenizableM(t, m) THEN <<"tokens", FreshTokensM(t, m)>> ELSE <<"raise", "ValueError">>
+FreshParseM(t, m) == IF ~TokenizableM(t, m) THEN <<"raise", "ValueError">>
+                     ELSE IF ParseOK[m][t] THEN <<"tree", t, m>> ELSE <<"raise", "ParserException">>
 
 VARIABLES lists,       \* list identity -> content
           tokCache,    \* text -> list identity (partial function as a set of pairs)
@@ -29,8 +36,14 @@ VARIABLES lists,       \* list identity -> content
           cursorEOF,   \* the cursor was left on the end marker by the previous parse
           handed,      \* list identities the client holds
           last,        \* last API call and its result: <<op, text, result>>
-          steps
-vars == <<lists, tokCache, parseCache, cursorEOF, handed, last, steps>>
+          steps,
+          mode,        \* current configuration of the parser's tokenizer
+          stale        \* texts with a cache entry made under a configuration that has since been changed (no clear_cache since)
+vars == <<lists, tokCache, parseCache, cursorEOF, handed, last, steps, mode, stale>>
+FreshTokens(t) == FreshTokensM(t, mode)
+Tokenizable(t) == TokenizableM(t, mode)
+FreshTok(t) == FreshTokM(t, mode)
+FreshParse(t) == FreshParseM(t, mode)
 
 Cached(t) == \E p \in tokCache : p[1] = t
 ListOf(t) == (CHOOSE p \in tokCache : p[1] = t)[2]
@@ -39,6 +52,7 @@ Put(ls, id, content) == [i \in DOMAIN ls \cup {id} |-> IF i = id THEN content EL
 
 Init == /\ lists = <<>> /\ tokCache = {} /\ parseCache = {} /\ cursorEOF = FALSE
         /\ handed = {} /\ last = <<"none", "none", <<"none">>>> /\ steps = 0
+        /\ mode \in Modes /\ stale = {}
 
 \* internal: make sure text t is in the token cache; returns the identity the caller receives
 \* (a copy when CopyOnReturn, else the cached list itself)
@@ -52,7 +66,7 @@ TokenizeEffect(t, ls, tc) ==
 
 Tokenize(t) ==
   /\ Cardinality(DOMAIN lists) + 2 <= MaxLists
-  /\ IF ~Tokenizable(t)
+  /\ IF ~Cached(t) /\ ~Tokenizable(t)
      THEN /\ last' = <<"tokenize", t, <<"raise", "ValueError">>>>
           /\ UNCHANGED <<lists, tokCache, handed>>
      ELSE LET e == TokenizeEffect(t, lists, tokCache) IN
@@ -63,42 +77,56 @@ Tokenize(t) ==
 \* _parse consumes the list it is given; its outcome depends on the CONTENT it finds there
 Parse(t) ==
   /\ Cardinality(DOMAIN lists) + 2 <= MaxLists
-  /\ IF t \in parseCache
-     THEN /\ last' = <<"parse", t, <<"tree", t>>>> /\ UNCHANGED <<lists, tokCache, parseCache, cursorEOF, handed>>
-     ELSE IF ~Tokenizable(t)
+  /\ IF \E q \in parseCache : q[1] = t
+     THEN /\ last' = <<"parse", t, <<"tree", t, (CHOOSE q \in parseCache : q[1] = t)[2]>>>> /\ UNCHANGED <<lists, tokCache, parseCache, cursorEOF, handed>>
+     ELSE IF ~Cached(t) /\ ~Tokenizable(t)
      THEN /\ last' = <<"parse", t, <<"raise", "ValueError">>>> /\ UNCHANGED <<lists, tokCache, parseCache, cursorEOF, handed>>
      ELSE LET e == TokenizeEffect(t, lists, tokCache)
               content == e.lists[e.rid]
-              stale == cursorEOF /\ ~ResetCursor          \* "parsed beyond the end of the expression"
               intact == content = FreshTokens(t)
-              outcome == IF stale THEN <<"raise", "OutOfTokens">>
-                         ELSE IF ~intact THEN <<"corrupt", content>>
-                         ELSE FreshParse(t)
+              staleCur == cursorEOF /\ ~ResetCursor          \* "parsed beyond the end of the expression"
+              \* a token list made under another configuration is read with the current function table
+              made == IF Len(content) > 0 /\ content[1][2] \in Modes THEN content[1][2] ELSE mode
+              outcome == IF staleCur THEN <<"raise", "OutOfTokens">>
+                         ELSE IF intact THEN FreshParse(t)
+                         ELSE IF content = FreshTokensM(t, made) THEN <<"mixed", t, made, mode>>   \* old tokens read with the current function table: unspecified
+                         ELSE <<"corrupt", content>>
           IN /\ lists' = [e.lists EXCEPT ![e.rid] = <<>>]                \* consumed
              /\ tokCache' = e.tokCache
-             /\ parseCache' = IF outcome[1] = "tree" THEN parseCache \cup {t} ELSE parseCache
+             /\ parseCache' = IF outcome[1] = "tree" THEN parseCache \cup {<<t, outcome[3]>>} ELSE parseCache
              /\ cursorEOF' = (outcome[1] = "tree")
              /\ last' = <<"parse", t, outcome>>
              /\ UNCHANGED handed
-Clear == /\ tokCache' = {} /\ parseCache' = {} /\ last' = <<"clear", "none", <<"none">>>>
-         /\ UNCHANGED <<lists, cursorEOF, handed>>
+Clear == /\ tokCache' = (IF ClearDropsTokens THEN {} ELSE tokCache) /\ parseCache' = {} /\ last' = <<"clear", "none", <<"none">>>>
+         /\ stale' = {}
+         /\ UNCHANGED <<lists, cursorEOF, handed, mode>>
+\* the client reconfigures the parser's public tokenizer; nothing else happens until the next call
+Configure(m) == /\ m # mode /\ mode' = m
+                /\ stale' = stale \cup {p[1] : p \in tokCache} \cup {q[1] : q \in parseCache}
+                /\ last' = <<"config", "none", <<"none">>>>
+                /\ UNCHANGED <<lists, tokCache, parseCache, cursorEOF, handed>>
 \* the client consumes / edits a list it was handed
 ClientPop(id)    == /\ id \in handed /\ Len(lists[id]) > 0 /\ lists' = [lists EXCEPT ![id] = Tail(@)]
-                    /\ UNCHANGED <<tokCache, parseCache, cursorEOF, handed, last>>
-ClientAppend(id) == /\ id \in handed /\ Len(lists[id]) < 4 /\ lists' = [lists EXCEPT ![id] = Append(@, <<"junk", 0>>)]
-                    /\ UNCHANGED <<tokCache, parseCache, cursorEOF, handed, last>>
+                    /\ UNCHANGED <<tokCache, parseCache, cursorEOF, handed, last, mode, stale>>
+ClientAppend(id) == /\ id \in handed /\ Len(lists[id]) < 4 /\ lists' = [lists EXCEPT ![id] = Append(@, <<"junk", "none", 0>>)]
+                    /\ UNCHANGED <<tokCache, parseCache, cursorEOF, handed, last, mode, stale>>
 Next == /\ steps < MaxSteps /\ steps' = steps + 1
-        /\ \/ \E t \in Texts : Tokenize(t) \/ Parse(t)
+        /\ \/ \E t \in Texts : (Tokenize(t) \/ Parse(t)) /\ UNCHANGED <<mode, stale>>
            \/ Clear
+           \/ \E m \in Modes : Configure(m)
            \/ \E id \in handed : ClientPop(id) \/ ClientAppend(id)
 Spec == Init /\ [][Next]_vars
 
 \* C12 / C10: whatever happened before, every answer is the fresh parser's answer
+\* ... of a fresh parser configured like this one - except for texts whose cache entry predates a reconfiguration
+\* (those keep answering as configured then, until clear_cache)
 HistoryFree ==
-  /\ last[1] = "tokenize" => last[3] = FreshTok(last[2])
-  /\ last[1] = "parse"    => last[3] = FreshParse(last[2])
+  /\ (last[1] = "tokenize" /\ last[2] \notin stale) => last[3] = FreshTok(last[2])
+  /\ (last[1] = "parse" /\ last[2] \notin stale)    => last[3] = FreshParse(last[2])
+  /\ (last[1] = "tokenize" /\ last[2] \in stale) => \E m \in Modes : last[3] = FreshTokM(last[2], m)
+  \* parse of a stale text: unspecified (old tokens, current function table) - the client has to clear_cache first
 \* handed-out lists are independent of the cache
 Independent == \A id \in handed : \A p \in tokCache : p[2] # id
 \* the cache itself is never damaged
-CacheIntact == \A p \in tokCache : lists[p[2]] = FreshTokens(p[1])
+CacheIntact == \A p \in tokCache : \E m \in Modes : lists[p[2]] = FreshTokensM(p[1], m)
 =============================================================================
